@@ -41,7 +41,7 @@ def body(c):
         "clang ASan/UBSan"]
     c.assumptions += [
         "residual bound 1e3 n eps (|A||x|+|b|) is evaluated in the unscaled "
-        "system; row scalings are exact powers of two (2^-27, 1, 2^27)",
+        "system; row scalings are exact powers of two (2^-28, 1, 2^28)",
         "a/b reduction is observed through an identity T8 calibration "
         "(factor 10 on the bound for the calibration's own rounding)",
         "apply_m / solve are observed through the forward model (backward "
